@@ -12,7 +12,7 @@ import z3
 from values import *
 import engine
 from engine import explore, model_bytes
-from props.common import Result, run_replay, hexs, unhex, known_findings
+from props.common import Result, run_replay, hexs, unhex, known_findings, guarded, Undecided
 from props.conn_common import *
 from oracles import line_grammar as G
 from oracles.mpd_tokenizer import ConcreteDecider
@@ -198,7 +198,7 @@ def run_for(prop, payload):
     t0 = time.time()
     {'C03': run_c03, 'C02': run_c02, 'C09': run_c09, 'C10': run_c10, 'C18': run_c18}[prop](P, res, payload)
     res.wall_s = time.time() - t0
-    return res.to_dict()
+    return res.finish()
 
 def cuts_for(mode, n):
     if mode == 'whole':
@@ -212,11 +212,13 @@ def run_c03(P, res, pl):
         want, status = expected_from_reference(I.ctx, body)
         co, outs, t, conn = run_session(I, pl['flav'], body, cuts_for(pl['seg'], len(body)), pl['cap'], max_receives=4)
         return want, status, co, outs
-    for pr in explore(P, harness):
+    for pr in explore(P, guarded(harness)):
         res.paths += 1
         ctx = pr.ctx
         body = pr.interp._body
         rec = lambda: record(ctx, body, {'flav': pl['flav'], 'cuts': cuts_for(pl['seg'], len(body)), 'cap': pl['cap'], 'check': 'decode'})
+        if isinstance(pr.value, Undecided):
+            res.undecided_path(pr, lambda r: replay_for('C03', r), rec); continue
         if pr.kind == 'panic':
             res.violations.append({'what': 'receive panics: ' + pr.error.msg[:100], 'input': rec()}); continue
         want, status, co, outs = pr.value
@@ -257,10 +259,12 @@ def run_c02(P, res, pl):
         for f, cuts in plans:
             sessions.append((f, cuts, run_session(I, f, body, cuts, pl['cap'])))
         return sessions
-    for pr in explore(P, harness):
+    for pr in explore(P, guarded(harness)):
         res.paths += 1
         ctx = pr.ctx
         body = pr.interp._body
+        if isinstance(pr.value, Undecided):
+            res.undecided_path(pr, lambda r: replay_for('C02', r), lambda: record(ctx, body, {'flav': 'sync', 'cuts': [], 'cap': pl['cap'], 'check': 'segmentation', 'allsplits': True})); continue
         if pr.kind == 'panic':
             res.violations.append({'what': 'receive panics: ' + pr.error.msg[:100], 'input': record(ctx, body, {'flav': 'sync', 'cuts': [], 'cap': pl['cap'], 'check': 'segmentation'})}); continue
         sessions = pr.value
@@ -408,13 +412,15 @@ def run_c09(P, res, pl):
                 x = drive(I, x)
             I._again = classify(x).kind
         return want, co, outs, tr
-    for pr in explore(P, harness):
+    for pr in explore(P, guarded(harness)):
         res.paths += 1
         ctx = pr.ctx
         I = pr.interp
         body = I._body
         rec = lambda: record(ctx, body, {'flav': pl['flav'], 'cuts': getattr(I, '_cuts', []), 'cap': pl['cap'], 'check': 'robust', 'rawgreeting': t.startswith('greetfree'),
                                          'again': getattr(I, '_again', None) is not None})
+        if isinstance(pr.value, Undecided):
+            res.undecided_path(pr, lambda r: replay_for('C09', r), rec); continue
         if pr.kind == 'panic':
             res.cls('panic', nontrivial=True)
             res.violations.append({'what': 'panic on peer bytes: ' + pr.error.msg[:120], 'input': rec()}); continue
@@ -477,7 +483,7 @@ def run_c10(P, res, pl):
         if I._intr is not None:
             I._intr_hit = tr.read_calls > I._intr
         return (want, status), co, outs
-    for pr in explore(P, harness):
+    for pr in explore(P, guarded(harness)):
         res.paths += 1
         ctx = pr.ctx
         I = pr.interp
@@ -485,6 +491,8 @@ def run_c10(P, res, pl):
         rec = lambda: record(ctx, body, {'flav': pl['flav'], 'cuts': getattr(I, '_cuts', []), 'cap': pl['cap'], 'check': 'eof', 'rawgreeting': t == 'greetcut',
                                          # (an interrupt position the run never reached is not part of the input)
                                          'interrupt': getattr(I, '_intr', None) if (pr.kind == 'panic' or getattr(I, '_intr_hit', False)) else None})
+        if isinstance(pr.value, Undecided):
+            res.undecided_path(pr, lambda r: replay_for('C10', r), rec); continue
         if pr.kind == 'panic':
             res.violations.append({'what': 'panic: ' + pr.error.msg[:100], 'input': rec()}); continue
         want, co, outs = pr.value
@@ -560,12 +568,14 @@ def run_c18(P, res, pl):
             co, outs, conn = async_session(I, t, 0)
         ver = version_of(I, conn, pl['flav'] == 'async') if conn is not None else None
         return want, co, ver
-    for pr in explore(P, harness):
+    for pr in explore(P, guarded(harness)):
         res.paths += 1
         ctx = pr.ctx
         I = pr.interp
         g = I._body
         rec = lambda: record(ctx, g, {'flav': pl['flav'], 'cuts': getattr(I, '_cuts', []), 'cap': 8, 'check': 'greeting', 'rawgreeting': True})
+        if isinstance(pr.value, Undecided):
+            res.undecided_path(pr, lambda r: replay_for('C18', r), rec); continue
         if pr.kind == 'panic':
             res.violations.append({'what': 'connect panics: ' + pr.error.msg[:100], 'input': rec()}); continue
         (wk, wv), co, ver = pr.value
